@@ -601,11 +601,29 @@ func Run(rc *core.RunCtx) {
 			// now and then take the id of an operation that a settled point has seen terminated
 			// (and whose stop, if any, had been consumed by then)
 			var free []*opState
+			mu.Lock()
 			for _, oid := range opOrder {
-				if p := opsByID[oid]; p.termSeq > 0 && !p.reused && (!p.stopSent || p.stopSeq < p.termSeq) {
+				p := opsByID[oid]
+				if p.reused {
+					continue
+				}
+				if p.termSeq > 0 && (!p.stopSent || p.stopSeq < p.termSeq) {
 					free = append(free, p)
+					continue
+				}
+				// ... or whose complete frame the client has already received, if the client never
+				// sent a stop for it (a stop still on its way would hit the new operation)
+				if !p.stopSent {
+					for _, cf := range cframes {
+						if cf.Type == "complete" && cf.ID == p.wire && cf.Seq > p.startSeq {
+							free = append(free, p)
+							w.Count("ids_free_right_after_complete")
+							break
+						}
+					}
 				}
 			}
+			mu.Unlock()
 			if len(free) > 0 && t.Bool(1, 2, "reuse-id") {
 				p := free[t.Choose(len(free), "reuse-which")]
 				p.reused = true
